@@ -611,7 +611,7 @@ theorem decodeQuery_parts (name : QName) (attrs : List (QName × String)) (child
   have hsp : fq.space = nsCard := by
     have := (isC_space _ _ hC).1
     simpa [Node.space?] using this
-  unfold decodeQuery
+  unfold decodeQuery dataReqOf filterOf
   rcases hd with ⟨hd1, rfl⟩ | ⟨q, a, pc, hd1, hd2⟩
   · simp only [hroot, Bool.not_true, Bool.false_eq_true, if_false, hd1, List.getLast?_nil, hf, List.getLast?_singleton, hsp, ne_eq,
       not_true_eq_false, htest, hpfs, hl, bind, Except.bind, pure, Except.pure]
@@ -740,5 +740,121 @@ theorem decodeQuery_of_read (n : Node) (q : Query) (h : readQuery n = some q) (h
               have := decodeQuery_parts name attrs (c :: rest) hroot (false, []) hdata f (by simpa using hf) t.1 t.2.1 hrf lim
                 (by simpa using hl) hl0
               rw [this, ← hkk]
+
+-- multiget -------------------------------------------------------------------------------------------------------------------------------
+
+theorem readHref_facts (unescape : String → Option String) (n : Node) (p : String) (h : readHref unescape n = some p) :
+    isD "href" n = true ∧ (∃ q cs, n = .elem q [] cs ∧ unescape (chardata cs) = some p) := by
+  unfold readHref at h
+  split at h
+  · rename_i q cs
+    by_cases hc : (isD "href" (Node.elem q [] cs) && cs.all isText) = true
+    · simp only [hc, if_true] at h
+      simp only [Bool.and_eq_true] at hc
+      exact ⟨hc.1, q, cs, rfl, h⟩
+    · simp [hc] at h
+  · cases h
+
+theorem hrefs_agree (unescape : String → Option String) (l : List Node) (ps : List String)
+    (h : l.mapM (readHref unescape) = some ps) :
+    l.filter (·.isElem nsDav "href") = l ∧
+    l.mapM (decHref unescape) = .ok ps := by
+  induction l generalizing ps with
+  | nil => simp at h; subst h; exact ⟨rfl, rfl⟩
+  | cons a as ih =>
+    rw [List.mapM_cons] at h
+    cases ha : readHref unescape a with
+    | none => simp [ha] at h
+    | some p =>
+      cases has : as.mapM (readHref unescape) with
+      | none => simp [ha, has] at h
+      | some ps' =>
+        simp only [ha, has, bind, Option.bind, pure, Option.some.injEq] at h
+        subst h
+        obtain ⟨hD, q, cs, rfl, hu⟩ := readHref_facts unescape a p ha
+        obtain ⟨i1, i2⟩ := ih ps' has
+        have hi : (Node.elem q [] cs).isElem nsDav "href" = true := by rw [(isD_facts _ _ hD).1]; decide
+        refine ⟨by simp [List.filter_cons, hi, i1], ?_⟩
+        rw [List.mapM_cons]
+        simp only [decHref, hu, i2, bind, Except.bind, pure, Except.pure]
+
+theorem dataReqOf_of (children : List Node) (d : Bool × List String) (h : DataPart children d) : dataReqOf children = .ok d := by
+  unfold dataReqOf
+  rcases h with ⟨h1, rfl⟩ | ⟨q, a, pc, h1, h2⟩
+  · rw [h1]; rfl
+  · rw [h1]; simpa using h2
+
+/-- every addressbook-multiget document the strict reader accepts reaches the backend as the request it denotes -/
+theorem decodeMultiGet_of_read (unescape : String → Option String) (n : Node) (m : MultiGet)
+    (h : readMultiGet unescape n = some m) : decodeMultiGet unescape n = .ok m := by
+  cases n with
+  | text s => simp [readMultiGet] at h
+  | comment s => simp [readMultiGet] at h
+  | elem name attrs cs =>
+    unfold readMultiGet at h
+    simp only at h
+    split at h
+    · cases h
+    · rename_i hc
+      simp only [Bool.not_eq_true, Bool.not_eq_false', Bool.and_eq_true, beq_iff_eq] at hc
+      have hroot : (name.space == nsCard && name.loc == "addressbook-multiget") = true := by
+        simp [hc.1.1, hc.1.2, nsC, nsCard]
+      cases hd : (leadProp cs).1 with
+      | none => simp [hd] at h
+      | some d =>
+        cases hh : (leadProp cs).2.mapM (readHref unescape) with
+        | none => simp [hd, hh] at h
+        | some hs =>
+          simp only [hd, hh, bind, Option.bind] at h
+          by_cases he : hs.isEmpty = true
+          · simp [he] at h
+          · simp only [he, Bool.false_eq_true, if_false, pure, Option.some.injEq] at h
+            subst h
+            unfold leadProp at hd hh
+            unfold decodeMultiGet
+            simp only [hroot, Bool.not_true, Bool.false_eq_true, if_false]
+            match cs, hd, hh with
+            | [], hd, hh => simp at hh; subst hh; simp at he
+            | c :: rest, hd, hh =>
+              simp only at hd hh
+              by_cases hp : isPropReq c = true
+              · simp only [hp, if_true] at hd hh
+                have hdp := propReq_of_read c d hp hd
+                obtain ⟨i1, i2⟩ := hrefs_agree unescape rest hs hh
+                have hrestP : rest.filter (·.isElem nsDav "prop") = [] := by
+                  rw [← i1]
+                  rw [List.filter_filter]
+                  apply List.filter_eq_nil_iff.mpr
+                  intro x _ hx
+                  cases x with
+                  | elem q a k => simp [Node.isElem] at hx; obtain ⟨⟨_, h1⟩, ⟨_, h2⟩⟩ := hx; rw [h1] at h2; exact absurd h2 (by decide)
+                  | text s => simp [Node.isElem] at hx
+                  | comment s => simp [Node.isElem] at hx
+                have hdata : DataPart (c :: rest) d := by
+                  have e : (c :: rest).filter (·.isElem nsDav "prop") = [c].filter (·.isElem nsDav "prop") := by
+                    have : c :: rest = [c] ++ rest := rfl
+                    rw [this, List.filter_append, hrestP, List.append_nil]
+                  unfold DataPart at hdp ⊢
+                  rw [e]; exact hdp
+                have hcH : c.isElem nsDav "href" = false := by
+                  simp only [isPropReq, Bool.or_eq_true] at hp
+                  rcases hp with (h1 | h1) | h1 <;> (rw [(isD_facts _ _ h1).1]; decide)
+                have hfil : (c :: rest).filter (·.isElem nsDav "href") = rest := by
+                  simp [List.filter_cons, hcH, i1]
+                simp only [dataReqOf_of _ d hdata, hfil, i2, bind, Except.bind, pure, Except.pure]
+              · simp only [hp, Bool.false_eq_true, if_false, Option.some.injEq] at hd hh
+                subst hd
+                obtain ⟨i1, i2⟩ := hrefs_agree unescape (c :: rest) hs hh
+                have hP : (c :: rest).filter (·.isElem nsDav "prop") = [] := by
+                  rw [← i1]
+                  rw [List.filter_filter]
+                  apply List.filter_eq_nil_iff.mpr
+                  intro x _ hx
+                  cases x with
+                  | elem q a k => simp [Node.isElem] at hx; obtain ⟨⟨_, h1⟩, ⟨_, h2⟩⟩ := hx; rw [h1] at h2; exact absurd h2 (by decide)
+                  | text s => simp [Node.isElem] at hx
+                  | comment s => simp [Node.isElem] at hx
+                have hdata : DataPart (c :: rest) (false, []) := Or.inl ⟨hP, rfl⟩
+                simp only [dataReqOf_of _ _ hdata, i1, i2, bind, Except.bind, pure, Except.pure]
 
 end GoWebdav.Lemmas.CarddavAgree
